@@ -36,7 +36,7 @@ use avh::prng::{hex, unhex, Rng};
 use avh::{harness_main, perr};
 use std::panic::{catch_unwind, AssertUnwindSafe};
 
-mod e2e {
+pub mod e2e {
     include!("../c12_e2e.rs");
 }
 
